@@ -42,12 +42,19 @@ Inductive skind := KFile | KDir | KLink | KData.
 Inductive fkind := FStat | FName | FOpen | FRead (k : nat).
 (* sticky = the environment still has the fault when the source is touched again *)
 Record fault := mkFault { f_kind : fkind; f_sticky : bool }.
-Record src := mkSrc { s_name : Z; s_kind : skind; s_data : bytes; s_fault : option fault }.
+(* s_eloop: the exception of the fault is an OSError with errno ELOOP (only _writeall looks at it).
+   The class of the exception otherwise plays no role anywhere in the write path: the rollback of
+   _register_and_archive catches BaseException, nothing else between the source and the caller
+   catches anything (checked by the harness with ValueError, RuntimeError and a BaseException
+   subclass raised at open and at read). *)
+Record src := mkSrc { s_name : Z; s_kind : skind; s_data : bytes; s_fault : option fault; s_eloop : bool }.
 
 Inductive api := AWrite | AWritestr | AWritef.
 Inductive wop :=
 | OCall (a : api) (s : src)
-| OWriteall (root_missing : bool) (l : list src).   (* l = the tree in the order _writeall visits it *)
+| OWriteall (root_missing : bool) (deref : bool) (l : list src).
+   (* l = the tree in the order _writeall visits it; deref = SevenZipFile(dereference=True): symbolic
+      links are presented to the machine as what they point to (KFile / KDir) *)
 Inductive wout := Returned | Raised.
 
 (* ------------------------------------------------------------------ *)
@@ -190,20 +197,25 @@ Definition call_data (a : api) (st : wstate) (s : src) : wstate * wout :=
   | _ => reg_archive (set_init st) (file_of_src a s)
   end.
 
-(* one member visited by _writeall: is_symlink()/is_file()/is_dir() come before write() *)
+(* one member visited by _writeall: is_symlink()/is_file()/is_dir() come before write(); pathlib
+   answers False for ELOOP instead of raising, so that an ELOOP of lstat surfaces inside write() *)
 Definition elem_writeall (st : wstate) (s : src) : wstate * wout :=
   match fault_kind s with
-  | Some FStat => (st, Raised)
+  | Some FStat => if s_eloop s then (set_init st, Raised) else (st, Raised)
   | _ => call_write st s
   end.
 
-Fixpoint writeall_loop (st : wstate) (l : list src) : wstate * wout :=
+(* the except clause of _writeall: `if self.dereference and ose.errno in [errno.ELOOP]: return`,
+   everything else is re-raised.  (Members whose failure is swallowed are leaves of the tree.) *)
+Definition swallows (deref : bool) (s : src) : bool := deref && s_eloop s.
+
+Fixpoint writeall_loop (deref : bool) (st : wstate) (l : list src) : wstate * wout :=
   match l with
   | [] => (st, Returned)
   | s :: r =>
       match elem_writeall st s with
-      | (st', Raised) => (st', Raised)
-      | (st', Returned) => writeall_loop st' r
+      | (st', Raised) => if swallows deref s then writeall_loop deref st' r else (st', Raised)
+      | (st', Returned) => writeall_loop deref st' r
       end
   end.
 
@@ -211,8 +223,8 @@ Definition wstep (st : wstate) (op : wop) : wstate * wout :=
   match op with
   | OCall AWrite s => call_write st s
   | OCall a s => call_data a st s
-  | OWriteall true _ => (st, Raised)                     (* "specified path does not exist." *)
-  | OWriteall false l => writeall_loop st l
+  | OWriteall true _ _ => (st, Raised)                   (* "specified path does not exist." *)
+  | OWriteall false deref l => writeall_loop deref st l
   end.
 
 Fixpoint run (st : wstate) (ops : list wop) : wstate * list wout :=
@@ -316,27 +328,32 @@ Definition fires (a : api) (s : src) : bool :=
 Definition dirty (a : api) (s : src) : bool :=
   fires a s && match s_fault s with Some (mkFault (FRead n) _) => (0 <? n)%nat | _ => false end.
 
-(* members of the tree before the first failing one *)
-Fixpoint ok_prefix (l : list src) : list src :=
+(* members of the tree that are written: up to the first failure that propagates, without those
+   whose failure _writeall swallows *)
+Fixpoint ok_prefix (deref : bool) (l : list src) : list src :=
   match l with
   | [] => []
-  | s :: r => if fires AWrite s then [] else s :: ok_prefix r
+  | s :: r => if fires AWrite s then (if swallows deref s then ok_prefix deref r else [])
+              else s :: ok_prefix deref r
   end.
+
+(* the failure of this member propagates out of writeall *)
+Definition stops (deref : bool) (s : src) : bool := fires AWrite s && negb (swallows deref s).
 
 (* the members a call that behaves as the property demands leaves in the archive
    (writeall is the sequence of its write() calls) *)
 Definition expected (op : wop) : list (Z * mres) :=
   match op with
   | OCall a s => if fires a s then [] else [full_member (file_of_src a s)]
-  | OWriteall true _ => []
-  | OWriteall false l => map (fun s => full_member (file_of_src AWrite s)) (ok_prefix l)
+  | OWriteall true _ _ => []
+  | OWriteall false deref l => map (fun s => full_member (file_of_src AWrite s)) (ok_prefix deref l)
   end.
 
 Definition expected_out (op : wop) : wout :=
   match op with
   | OCall a s => if fires a s then Raised else Returned
-  | OWriteall true _ => Raised
-  | OWriteall false l => if existsb (fires AWrite) l then Raised else Returned
+  | OWriteall true _ _ => Raised
+  | OWriteall false deref l => if existsb (stops deref) l then Raised else Returned
   end.
 
 (* histories none of whose failures leaves bytes behind: every fault except read() raising
@@ -344,14 +361,14 @@ Definition expected_out (op : wop) : wout :=
 Definition clean_op (op : wop) : bool :=
   match op with
   | OCall a s => negb (dirty a s)
-  | OWriteall _ l => forallb (fun s => negb (dirty AWrite s)) l
+  | OWriteall _ _ l => forallb (fun s => negb (dirty AWrite s)) l
   end.
 
 (* the sources of a history with the entry point that takes them *)
 Definition op_srcs (op : wop) : list (api * src) :=
   match op with
   | OCall a s => [(a, s)]
-  | OWriteall _ l => map (fun s => (AWrite, s)) l
+  | OWriteall _ _ l => map (fun s => (AWrite, s)) l
   end.
 
 (* a registered member and what a reader may get for it: the complete bytes of the source, or an error *)
@@ -376,16 +393,16 @@ Definition of_fault (t : tree) : option fault :=
       Some (mkFault (match of_TI k with 0 => FStat | 1 => FName | 2 => FOpen | _ => FRead (of_nat_t n) end) (of_bool s))
   | _ => None
   end.
-(* src = (name kind data fault) ; fault = () | (kind k sticky) *)
+(* src = (name kind data fault eloop) ; fault = () | (kind k sticky) *)
 Definition of_src (t : tree) : src :=
-  mkSrc (of_TI (tnth t 0)) (of_skind (tnth t 1)) (of_bytes (tnth t 2)) (of_fault (tnth t 3)).
-(* op = (0|1|2 src) | (3 root_missing (src ...)) *)
+  mkSrc (of_TI (tnth t 0)) (of_skind (tnth t 1)) (of_bytes (tnth t 2)) (of_fault (tnth t 3)) (of_bool (tnth t 4)).
+(* op = (0|1|2 src) | (3 root_missing (src ...) deref) *)
 Definition of_op (t : tree) : wop :=
   match of_TI (tnth t 0) with
   | 0 => OCall AWrite (of_src (tnth t 1))
   | 1 => OCall AWritestr (of_src (tnth t 1))
   | 2 => OCall AWritef (of_src (tnth t 1))
-  | _ => OWriteall (of_bool (tnth t 1)) (map of_src (of_TL (tnth t 2)))
+  | _ => OWriteall (of_bool (tnth t 1)) (of_bool (tnth t 3)) (map of_src (of_TL (tnth t 2)))
   end.
 
 Definition t_nat (n : nat) : tree := TI (Z.of_nat n).
